@@ -85,6 +85,9 @@ func (P *Program) VerifyFunc(fn *ssa.Function) (res *FuncResult) {
 	for _, fv := range fn.FreeVars {
 		v := c.freshVal(fv.Type(), "fv_"+fv.Name())
 		c.wfRefs(st, v)
+		if _, isPtr := fv.Type().Underlying().(*types.Pointer); isPtr && v.Term != "" {
+			c.assumeAlways(not(eq(v.Term, "0"))) // captured variables are addresses of live variables
+		}
 		fr.vals[fv] = v
 	}
 	fr.old = st.clone()
@@ -143,6 +146,7 @@ func (P *Program) VerifyFunc(fn *ssa.Function) (res *FuncResult) {
 				continue
 			}
 			env := penv(ex.st)
+			env.cells = true // locals (final values) are visible to postconditions; parameters keep their entry values
 			res := &Val{T: fn.Signature.Results()}
 			if len(ex.results) == 1 {
 				res = ex.results[0]
